@@ -3,7 +3,7 @@
 # (scratch worktree of /repo HEAD + copy of /verif/sim pointing at it; /repo itself is not touched)
 set -u
 PATCH="$(readlink -f "$1")"; PROP="$2"; RUNS="${3:-}"
-EV=/tmp/ev
+EV=${EV_DIR:-/tmp/ev}
 mkdir -p $EV
 if [ ! -d $EV/repo ]; then git -C /repo worktree add -q --detach $EV/repo HEAD || exit 2; fi
 git -C $EV/repo checkout -q --detach "$(git -C /repo rev-parse HEAD)" 2>/dev/null
